@@ -2,7 +2,8 @@ package main
 
 // C17 — the location cache is transparent (sequential, differential part).
 //
-// Engine SEQ: BFS over request histories on two locations
+// Engine SEQ: BFS over request histories on two locations (named "A" and "a": the
+// names differ only in letter case and are nevertheless two locations)
 // {CreateLocation, AddFact, RemFact, GetFact, SearchFacts, AddRule,
 // ProcessEvent, ClearLocation, clock += 2ms}.  Every history is executed at the
 // same time on a core.Location world (no cache at all) and on six sys.System
@@ -39,9 +40,9 @@ func (o c17op) String() string {
 
 func c17Ops() []c17op {
 	var ops []c17op
-	for _, l := range []string{"A", "B"} {
+	for _, l := range []string{"A", "a"} {
 		for _, k := range []string{"GetFact", "SearchFacts", "ProcessEvent", "CreateLocation", "AddFact", "RemFact", "AddRule", "ClearLocation", "SetCacheTTLProp"} {
-			if k == "SetCacheTTLProp" && l == "B" {
+			if k == "SetCacheTTLProp" && l == "a" {
 				continue
 			}
 			ops = append(ops, c17op{k, l})
@@ -77,7 +78,7 @@ func (in *c17inst) Close() {}
 func (in *c17inst) Key() string {
 	var sb strings.Builder
 	sb.WriteString(lib.Canon(in.created) + lib.Canon(in.cleared))
-	for _, l := range []string{"A", "B"} {
+	for _, l := range []string{"A", "a"} {
 		sb.WriteString("|" + in.ref.KeySnapshot(l) + "|" + in.refOn.KeySnapshot(l))
 		for _, s := range in.worlds {
 			sb.WriteString("|" + s.w.KeySnapshot(l))
@@ -257,8 +258,8 @@ func c17Scenarios(w *lib.Worker) []*lib.Scenario {
 			Fresh: func() lib.Instance {
 				clk := lib.Clock()
 				in := &c17inst{kind: kind, ops: ops, w: w, clock: clk, created: map[string]bool{}, cleared: map[string]bool{}}
-				in.ref = newCoreWorld(kind, []string{"A", "B"}, nil)
-				in.refOn = newCoreWorld(kind, []string{"A", "B"}, nil)
+				in.ref = newCoreWorld(kind, []string{"A", "a"}, nil)
+				in.refOn = newCoreWorld(kind, []string{"A", "a"}, nil)
 				for _, ttl := range []struct {
 					n string
 					d time.Duration
